@@ -1,10 +1,271 @@
-import OmplModel.Model.Ptc
-/-! C18 property theorems (placeholder while the proofs are written). -/
+import OmplModel.Proofs.Ptc
+/-!
+C18 - termination conditions mean exactly what they say.  Property theorems over the model
+`OmplModel.Model.Ptc` (which the check ties to the C++ code by differential runs).
+Every statement quantifies over *all* environments (predicate traces, clocks), all states reached
+by whatever happened before, all nestings (structural induction) and all counts (induction on ℕ).
+-/
 namespace OmplModel.Props.C18
 open OmplModel.Ptc
 
-theorem always_const (env : Env) (i : Nat) (s : St) (h : s.term i = false) :
-    (eval env (.leaf i false .always) s).1 = true := by
-  simp [eval, h, callLeaf]
+/-! ### a condition built from a predicate reports exactly the predicate -/
+
+/-- one evaluation: the answer is the predicate's next scripted value, the predicate is invoked
+exactly once (its own counter moves by one, nobody else's moves, one log entry). -/
+theorem eval_pred (env : Env) (i id : Nat) (s : St) (h : s.term i = false) :
+    (eval env (.leaf i false (.pred id)) s).1 = env.pred id (s.calls id) ∧
+    (eval env (.leaf i false (.pred id)) s).2.calls id = s.calls id + 1 ∧
+    (∀ j, j ≠ id → (eval env (.leaf i false (.pred id)) s).2.calls j = s.calls j) ∧
+    (eval env (.leaf i false (.pred id)) s).2.log = (i, env.pred id (s.calls id)) :: s.log := by
+  refine ⟨?_, ?_, ?_, ?_⟩ <;> simp [eval, h, callLeaf, upd]
+  intro j hj hj'; exact absurd hj' hj
+
+/-- every trace: `n` evaluations in a row return the next `n` values of the predicate's trace. -/
+theorem eval_pred_trace (env : Env) (i id : Nat) (n : Nat) : ∀ (s : St), s.term i = false →
+    (evalN env (.leaf i false (.pred id)) n s).1 = (List.range n).map (fun j => env.pred id (s.calls id + j)) := by
+  induction n with
+  | zero => intro s _; rfl
+  | succ n ih =>
+    intro s h
+    have hp := eval_pred env i id s h
+    have ht : (eval env (.leaf i false (.pred id)) s).2.term i = false := by rw [eval_term]; exact h
+    simp only [evalN, List.range_succ_eq_map, List.map_cons, List.map_map]
+    rw [ih _ ht, hp.1, hp.2.1]
+    simp only [Nat.add_zero, List.cons.injEq, true_and]
+    apply List.map_congr_left
+    intro j _
+    simp only [Function.comp, Nat.succ_eq_add_one]
+    congr 1
+    omega
+
+example : (evalN ⟨fun _ k => k % 2 == 1, fun _ => 0⟩ (.leaf 0 false (.pred 7)) 4 {}).1 = [false, true, false, true] := by
+  decide
+
+/-! ### terminate() is sticky -/
+
+/-- once `terminate()` has been requested on `c` (or on any copy: a copy is the same tree), every
+later evaluation reports true and invokes nothing, whatever operations happened in between. -/
+theorem terminate_sticky {α} [PNum α] (env : Env) (c : Cond) (w : World α) (ops : List (Op α)) :
+    eval env c ((w.step env (.terminate c)).run env ops).st = (true, ((w.step env (.terminate c)).run env ops).st) := by
+  apply eval_of_term
+  apply run_term_mono
+  simp [World.step, terminate]
+
+/-- the flag belongs to the impl object: any condition value sharing the impl is terminated too. -/
+theorem terminate_sticky_shared {α} [PNum α] (env : Env) (c c' : Cond) (hshare : c'.impl = c.impl)
+    (w : World α) (ops : List (Op α)) :
+    (eval env c' ((w.step env (.terminate c)).run env ops).st).1 = true := by
+  rw [eval_of_term]
+  apply run_term_mono
+  simp [World.step, terminate, hshare]
+
+/-- through every or/and nesting: if the terminate flags force `c` (`Forced`: the flag of `c` itself,
+of either operand of an `or`, of both operands of an `and`, recursively), then `c` evaluates to true
+now and after any further operations. -/
+theorem terminate_sticky_nested {α} [PNum α] (env : Env) (c : Cond) (w : World α) (ops : List (Op α))
+    (h : Forced w.st c) : (eval env c (w.run env ops).st).1 = true :=
+  eval_of_forced env c _ (Forced_mono (fun i hi => run_term_mono env ops w i hi) c h)
+
+/-- terminating an operand forces every `or` that captured a copy of it, at any depth of `or`s. -/
+theorem terminate_forces_or (t : Cond) (s : St) (i : Nat) (a b : Cond)
+    (h : Forced (terminate t s) a ∨ Forced (terminate t s) b) : Forced (terminate t s) (.or i a b) :=
+  Or.inr h
+
+theorem terminate_forces_self (t : Cond) (s : St) : Forced (terminate t s) t :=
+  Forced_self _ t (by simp [terminate])
+
+example : (eval ⟨fun _ _ => false, fun _ => 0⟩ (.or 2 (.and 3 (.leaf 0 false .never) (.leaf 1 false .never)) (.leaf 0 false .never))
+    (terminate (.leaf 0 false .never) {})).1 = true := by decide
+
+/-! ### or / and -/
+
+/-- `or`: true exactly when either operand is; the second operand is evaluated (in the state the
+first one left) iff the first one answered false. -/
+theorem or_spec (env : Env) (i : Nat) (a b : Cond) (s : St) (h : s.term i = false) :
+    (eval env (.or i a b) s).1 = ((eval env a s).1 || (eval env b (eval env a s).2).1) ∧
+    (eval env (.or i a b) s).2 = (if (eval env a s).1 then (eval env a s).2 else (eval env b (eval env a s).2).2) := by
+  simp only [eval, h]
+  cases hx : (eval env a s).1 <;> simp
+
+/-- `and`: true exactly when both operands are; the second is evaluated iff the first answered true. -/
+theorem and_spec (env : Env) (i : Nat) (a b : Cond) (s : St) (h : s.term i = false) :
+    (eval env (.and i a b) s).1 = ((eval env a s).1 && (eval env b (eval env a s).2).1) ∧
+    (eval env (.and i a b) s).2 = (if (eval env a s).1 then (eval env b (eval env a s).2).2 else (eval env a s).2) := by
+  simp only [eval, h]
+  cases hx : (eval env a s).1 <;> simp
+
+example : (eval ⟨fun _ _ => true, fun _ => 0⟩ (.or 2 (.leaf 0 false (.pred 0)) (.leaf 1 false (.pred 1))) {}).2.calls 1 = 0 := by
+  decide
+
+/-! ### the constant conditions -/
+
+theorem always_const (env : Env) (i : Nat) (s : St) : (eval env (.leaf i false .always) s).1 = true := by
+  simp only [eval]; split <;> rfl
+
+/-- never-terminating: false in every state, unless `terminate()` was requested on it -/
+theorem never_const (env : Env) (i : Nat) (s : St) : (eval env (.leaf i false .never) s).1 = s.term i := by
+  simp only [eval]
+  split
+  · rename_i h; simp [h]
+  · rename_i h; simp [callLeaf, h]
+
+/-! ### the iteration-count condition -/
+
+/-- closed form for every `k`, every `n`, every starting counter: the `j`-th evaluation (0-based)
+answers `(c₀ + j + 1) mod 2^32 > n`. -/
+theorem iter_evalN (env : Env) (i n : Nat) (k : Nat) : ∀ (s : St), s.term i = false →
+    (evalN env (.leaf i false (.iter n)) k s).1 =
+      (List.range k).map (fun j => decide ((s.cnt i + j + 1) % uintMod > n)) := by
+  induction k with
+  | zero => intro s _; rfl
+  | succ k ih =>
+    intro s h
+    have ht : (eval env (.leaf i false (.iter n)) s).2.term i = false := by rw [eval_term]; exact h
+    have h1 : (eval env (.leaf i false (.iter n)) s).1 = decide ((s.cnt i + 1) % uintMod > n) := by
+      simp [eval, h, callLeaf]
+    have h2 : (eval env (.leaf i false (.iter n)) s).2.cnt i = (s.cnt i + 1) % uintMod := by
+      simp [eval, h, callLeaf]
+    simp only [evalN, List.range_succ_eq_map, List.map_cons, List.map_map]
+    rw [ih _ ht, h1, h2]
+    simp only [Nat.add_zero, List.cons.injEq, true_and]
+    apply List.map_congr_left
+    intro j _
+    simp only [Function.comp, Nat.succ_eq_add_one, uintMod]
+    congr 2
+    omega
+
+/-- the property for the first 2^32 - 1 evaluations of a fresh condition: evaluation number `j+1` is
+false while `j+1 ≤ n` and true from `n+1` on.
+
+Full statement (no bound on `j`):
+  `∀ j < k, (evalN …).1[j]? = some (decide (n < j + 1))` - refuted by `iter_spec_fails`. -/
+theorem iter_spec_partial (env : Env) (i n k : Nat) (s : St) (h : s.term i = false) (h0 : s.cnt i = 0)
+    (j : Nat) (hj : j < k) (hsmall : j + 1 < uintMod) :
+    (evalN env (.leaf i false (.iter n)) k s).1[j]? = some (decide (n < j + 1)) := by
+  rw [iter_evalN env i n k s h, h0]
+  simp [hj, Nat.mod_eq_of_lt hsmall]
+
+/-- `timesCalled_` is an `unsigned int`: evaluation number 2^32 of an `n = 0` condition answers false
+although the property says true from evaluation 1 on (finding F16). -/
+theorem iter_spec_fails :
+    ¬ (∀ (env : Env) (i n k : Nat) (s : St), s.term i = false → s.cnt i = 0 → ∀ j, j < k →
+        (evalN env (.leaf i false (.iter n)) k s).1[j]? = some (decide (n < j + 1))) := by
+  intro hall
+  have h := hall ⟨fun _ _ => false, fun _ => 0⟩ 0 0 4294967296 {} rfl rfl 4294967295 (by decide)
+  rw [iter_evalN _ 0 0 4294967296 {} rfl] at h
+  simp [uintMod] at h
+
+example : (evalN ⟨fun _ _ => false, fun _ => 0⟩ (.leaf 0 false (.iter 2)) 5 {}).1 = [false, false, true, true, true] := by
+  decide
+
+/-- `reset()` and the object's own `eval()`: after a reset the object starts over -/
+theorem itc_reset (o : Itc) : o.reset.eval.1 = decide (o.max < 1) := by
+  simp [Itc.reset, Itc.eval, uintMod]
+
+/-- `k` public `eval()` calls in a row are the closed form used by the driver's `itcspin` -/
+theorem itc_spin (o : Itc) (k : Nat) : (o.spin k).eval.2 = o.spin (k + 1) := Itc.spin_succ o k
+
+/-- the cast copies the counter: the new condition continues from the object's count and shares
+nothing with the object afterwards (the object is not part of the state). -/
+theorem itc_cast (env : Env) (o : Itc) (i : Nat) (s : St) (h : s.term i = false) :
+    (eval env (o.cast i false s).1 (o.cast i false s).2).1 = o.eval.1 := by
+  simp [Itc.cast, Itc.eval, eval, h, callLeaf]
+
+/-! ### timed conditions over an abstract monotone clock -/
+
+/-- a timed condition created at clock reading `r₀` with duration `d` answers, at a later reading
+`r`, exactly whether more than `d` has elapsed: false before (and at) the deadline, true after. -/
+theorem timed_exact (env : Env) (i : Nat) (d : Int) (s0 s : St)
+    (h : s.term i = false) :
+    (eval env (mkTimed env i false d s0).1 s).1 = decide (env.clock s.reads - env.clock s0.reads > d) := by
+  simp only [mkTimed, eval, h, callLeaf]
+  simp only [Bool.false_eq_true, ↓reduceIte]
+  congr 1
+  apply propext
+  constructor <;> intro hh <;> omega
+
+/-- never reverting: with a monotone clock, once a timed condition has answered true it answers true
+after any further operations (which may read the clock, terminate, poll, report costs …). -/
+theorem timed_monotone {α} [PNum α] (env : Env) (hmono : ∀ m n, m ≤ n → env.clock m ≤ env.clock n)
+    (i : Nat) (e : Int) (w : World α) (ops : List (Op α))
+    (h1 : (eval env (.leaf i false (.timed e)) w.st).1 = true) :
+    (eval env (.leaf i false (.timed e))
+      (World.run env { w with st := (eval env (.leaf i false (.timed e)) w.st).2 } ops).st).1 = true := by
+  generalize hw' : World.run env { w with st := (eval env (.leaf i false (.timed e)) w.st).2 } ops = w'
+  cases hterm' : w'.st.term i with
+  | true => rw [eval_of_term env _ _ (by simpa [Cond.impl] using hterm')]
+  | false =>
+    have hreads : w.st.reads ≤ w'.st.reads := by
+      rw [← hw']
+      exact Nat.le_trans (eval_reads env (.leaf i false (.timed e)) w.st)
+        (run_reads_mono env ops { w with st := (eval env (.leaf i false (.timed e)) w.st).2 })
+    cases hterm : w.st.term i with
+    | true =>
+      have : w'.st.term i = true := by
+        rw [← hw']
+        apply run_term_mono
+        show (eval env (.leaf i false (.timed e)) w.st).2.term i = true
+        rw [eval_term]; exact hterm
+      rw [hterm'] at this; exact absurd this (by simp)
+    | false =>
+      simp only [eval, hterm, callLeaf] at h1
+      simp only [eval, hterm', callLeaf]
+      simp only [Bool.false_eq_true, ↓reduceIte, decide_eq_true_eq] at h1 ⊢
+      have := hmono _ _ hreads
+      omega
+
+/-! ### the periodically evaluated form -/
+
+/-- an evaluation of the polled form invokes nothing and returns the cache -/
+theorem polled_eval (env : Env) (i : Nat) (k : Leaf) (s : St) (h : s.term i = false) :
+    eval env (.leaf i true k) s = (s.cache i, s) := by
+  simp [eval, h]
+
+/-- the cache holds what the function returned at the last poll: an evaluation after a poll reports
+the predicate's value *at that poll* (so it lags by at most one polling period). -/
+theorem polled_lag (env : Env) (i : Nat) (k : Leaf) (s : St) (h : s.term i = false) :
+    (eval env (.leaf i true k) (poll env (.leaf i true k) s)).1 = (callLeaf env i k s).1 := by
+  have ht : (poll env (.leaf i true k) s).term i = false := by rw [poll_term]; exact h
+  rw [polled_eval env i k _ ht]
+  simp [poll, Cond.impl, h, callFn]
+
+/-- once the predicate is true from its `K`-th invocation on and has been invoked `K` times, any one
+poll makes the polled condition true: "no later than one period afterwards". -/
+theorem polled_catches_up (env : Env) (i id K : Nat) (s : St) (h : s.term i = false)
+    (htrue : ∀ j, K ≤ j → env.pred id j = true) (hK : K ≤ s.calls id) :
+    (eval env (.leaf i true (.pred id)) (poll env (.leaf i true (.pred id)) s)).1 = true ∧
+    K ≤ (poll env (.leaf i true (.pred id)) s).calls id := by
+  constructor
+  · rw [polled_lag env i _ s h]
+    simp [callLeaf, htrue _ hK]
+  · simp only [poll, Cond.impl, h, callFn, callLeaf]
+    simp only [Bool.false_eq_true, ↓reduceIte, upd_same]
+    omega
+
+/-- the poller stops working after `terminate()`: a poll changes nothing -/
+theorem polled_stops (env : Env) (c : Cond) (s : St) (h : s.term c.impl = true) : poll env c s = s := by
+  simp [poll, h]
+
+example : (eval ⟨fun _ _ => true, fun _ => 0⟩ (.leaf 0 true (.pred 0)) {}).1 = false ∧
+    (eval ⟨fun _ _ => true, fun _ => 0⟩ (.leaf 0 true (.pred 0)) (poll ⟨fun _ _ => true, fun _ => 0⟩ (.leaf 0 true (.pred 0)) {})).1 = true := by
+  decide
+
+/-! ### the exact-solution condition -/
+
+/-- mirrors the problem definition: true iff it holds a solution that is not approximate -/
+theorem exactSoln_mirrors (env : Env) (i : Nat) (s : St) (h : s.term i = false) :
+    (eval env (.leaf i false .exact) s).1 = hasExact s.solns ∧
+    (hasExact s.solns = true ↔ ∃ a ∈ s.solns, a = false) := by
+  constructor
+  · simp [eval, h, callLeaf]
+  · simp [hasExact, List.any_eq_true]
+
+theorem exactSoln_add (a : Bool) (s : St) : hasExact (addSoln a s).solns = (!a || hasExact s.solns) := by
+  simp [addSoln, hasExact]
+
+theorem exactSoln_clear (s : St) : hasExact (clearSolns s).solns = false := by
+  simp [clearSolns, hasExact]
+
+example : (eval ⟨fun _ _ => false, fun _ => 0⟩ (.leaf 0 false .exact) (addSoln false (addSoln true {}))).1 = true := by decide
 
 end OmplModel.Props.C18
